@@ -1,7 +1,8 @@
 /-
   Spec-driver operations for C07 (imports Base and Spec only):
-      <op> <chromosome letters> <ws> <we> <wst> <OBJ> => <answer>   ↦   pass | fail <class> | n/a
-  The line format is documented in harness/impl_chunk.py.  `fail <class>`: the class names a known deviation of the
+      <op> <chromosome letters> <ws> <we> <wst> <OBJ> [extras] [via:<ctor>] [@k|@c] => <answer>   ↦   pass | fail <class> | n/a
+  The line format is documented in harness/impl_chunk.py.  `via:` (alternative constructor of the chunk twin) and
+  `@k` / `@c` (which views were evaluated first) do not change the predicate an answer is judged by.  `fail <class>`: the class names a known deviation of the
   pinned library (Spec.Chunk.*Class) or `unclassified`; findings/C07.json matches on it.
   The literal parser `pDesc` is shared with the model driver (Driver/Chunk.lean).
 -/
@@ -56,6 +57,41 @@ def pHead : P Head := do
   let d ← pDesc
   pure ⟨letters.toList, ⟨(ws, we), wst⟩, d⟩
 
+/-! ### trailing modifiers -/
+
+def peek : P (Option String) := do
+  match (← get) with
+  | [] => pure none
+  | t :: _ => pure (some t)
+
+structure Mods where
+  via : Option Via
+  pre : Option Char
+
+def pMods : P Mods := do
+  let via ← (do
+    match (← peek) with
+    | some t =>
+      if t.startsWith "via:" then do
+        let _ ← tok
+        match t.splitOn ":" with
+        | ["via", "fcrl"] => pure (some Via.fcrl)
+        | ["via", "dict"] => pure (some Via.dict)
+        | ["via", "lift"] => pure (some Via.lift)
+        | ["via", "relift"] => pure (some Via.relift)
+        | ["via", "snv", p] => match p.toNat? with
+          | some n => pure (some (Via.snv n))
+          | none => throw s!"via? {t}"
+        | _ => throw s!"via? {t}"
+      else pure none
+    | none => pure none : P (Option Via))
+  let pre ← (do
+    match (← peek) with
+    | some "@k" => do let _ ← tok; pure (some 'k')
+    | some "@c" => do let _ ← tok; pure (some 'c')
+    | _ => pure none : P (Option Char))
+  pure ⟨via, pre⟩
+
 /-! ### answers -/
 
 def pNodeAns : P NodeAns := do
@@ -80,9 +116,38 @@ def pCell : P Cell := do
 /-- the letters the sequence clauses speak about: IUPAC nucleotides with a complement -/
 def lettersOk (s : List Char) : Bool := s.all (fun ch => (complement ch).isSome)
 
-/-- common frame: the chunk is a chunk, the description is in scope and lies on the chromosome -/
-def withScope (h : Head) (judge : Unit → String) : String :=
-  if !h.win.ok || !h.desc.inScope || !h.desc.fits h.letters.length h.win then "n/a" else judge ()
+/-- common frame: the chunk is a chunk, the description is in scope and lies on the chromosome; with an alternative
+    constructor, the clause speaks about the input -/
+def withScope (h : Head) (m : Mods) (judge : Unit → String) : String :=
+  if !h.win.ok || !h.desc.inScope || !h.desc.fits h.letters.length h.win then "n/a"
+  else match m.via with
+    | some v => if v.applies h.desc h.win then judge () else "n/a"
+    | none => judge ()
+
+def pFlags : P (List (Option Bool)) := do
+  let t ← tok
+  t.toList.mapM (fun ch => match ch with
+    | '1' => pure (some true)
+    | '0' => pure (some false)
+    | '-' => pure none
+    | _ => throw s!"flags? {t}")
+
+partial def pSameRows : P (List (Char × List (Option Bool))) := do
+  match (← tok) with
+  | "|" => pure []
+  | t => match t.toList with
+    | [c] => do let fl ← pFlags; let rest ← pSameRows; pure ((c, fl) :: rest)
+    | _ => throw s!"row? {t}"
+
+def pSame : P SameAns := do
+  let rows ← pSameRows
+  let tail ← pFlags
+  pure ⟨rows, tail⟩
+
+def splitBar : List String → List String × List String
+  | [] => ([], [])
+  | "|" :: rest => ([], rest)
+  | t :: rest => let (a, b) := splitBar rest; (t :: a, b)
 
 def internalOr {α} (a : Ans α) (cls : String) : String :=
   match a with
@@ -91,35 +156,40 @@ def internalOr {α} (a : Ans α) (cls : String) : String :=
 
 def ops : List (String × Op) := [
   ("loc", do
-      let h ← pHead; pArrow; let a ← pAns3 (pRest pNodeAns)
-      pure (withScope h fun _ => verdictC (okLoc h.desc h.win a.toOption) (internalOr a "unclassified"))),
+      let h ← pHead; let m ← pMods; pArrow; let a ← pAns3 (pRest pNodeAns)
+      pure (withScope h m fun _ => verdictC (okLoc h.desc h.win a.toOption)
+        (internalOr a (if chromosomeHalfOk h.desc h.win a.toOption then "chunk-view-only" else "unclassified")))),
   ("ident", do
-      let h ← pHead; pArrow; let a ← pAns3 (do let d ← pFlag; let gs ← pRest pFlag; pure (d, gs))
-      pure (withScope h fun _ =>
-        match h.desc with
-        | .ac ⟨_, _, none⟩ => "n/a"      -- bounds inferred from the parent: the twins are different collections
-        | _ => verdictC (okIdent h.desc h.win a.toOption) (internalOr a (identClass h.desc h.win a.toOption)))),
+      let h ← pHead; let m ← pMods; pArrow; let a ← pAns3 (do let d ← pFlag; let gs ← pRest pFlag; pure (d, gs))
+      pure (withScope h m fun _ =>
+        match h.desc, m.via with
+        | .ac ⟨_, _, none⟩, _ => "n/a"      -- bounds inferred from the parent: the twins are different collections
+        -- `from_dict` copies the identifier of the SOURCE collection, which was itself built on a chunk (F-C07a there)
+        | .gene _, some .relift => "n/a"
+        | .fic _, some .relift => "n/a"
+        | .ac _, some .relift => "n/a"
+        | _, _ => verdictC (okIdent h.desc h.win a.toOption) (internalOr a (identClass h.desc h.win a.toOption)))),
   ("seq", do
-      let h ← pHead; pArrow; let a ← pAns3 (pRest pCell)
-      pure (withScope h fun _ =>
+      let h ← pHead; let m ← pMods; pArrow; let a ← pAns3 (pRest pCell)
+      pure (withScope h m fun _ =>
         if !lettersOk h.letters then "n/a"
         else verdictC (okSeq h.letters h.desc h.win a.toOption) (internalOr a "unclassified"))),
   ("ccodons", do
-      let h ← pHead; pArrow; let a ← pAns3 (do let n ← pNat; let ls ← pLocs; pure (n, ls))
-      pure (withScope h fun _ =>
+      let h ← pHead; let m ← pMods; pArrow; let a ← pAns3 (do let n ← pNat; let ls ← pLocs; pure (n, ls))
+      pure (withScope h m fun _ =>
         match h.desc.coding with
         | none => "n/a"
         | some x => verdictC (okChromCodons x a.toOption) (internalOr a (chromCodonsClass x a.toOption.isSome)))),
   ("kcodons", do
-      let h ← pHead; pArrow; let a ← pAns3 pLocs
-      pure (withScope h fun _ =>
+      let h ← pHead; let m ← pMods; pArrow; let a ← pAns3 pLocs
+      pure (withScope h m fun _ =>
         match h.desc.coding with
         | none => "n/a"
         | some x => verdictC (okChunkCodons x h.win a.toOption)
                       (internalOr a (chunkCodonsClass x h.win a.toOption.isSome)))),
   ("cdsseq", do
-      let h ← pHead; pArrow; let a ← pAns3 pS
-      pure (withScope h fun _ =>
+      let h ← pHead; let m ← pMods; pArrow; let a ← pAns3 pS
+      pure (withScope h m fun _ =>
         match h.desc.coding with
         | none => "n/a"
         | some x =>
@@ -127,8 +197,8 @@ def ops : List (String × Op) := [
           else verdictC (okChunkCdsSeq h.letters x h.win a.toOption)
                  (internalOr a (chunkCodonsClass x h.win a.toOption.isSome)))),
   ("prot", do
-      let h ← pHead; pArrow; let a ← pAns3 pS
-      pure (withScope h fun _ =>
+      let h ← pHead; let m ← pMods; pArrow; let a ← pAns3 pS
+      pure (withScope h m fun _ =>
         match h.desc.coding with
         | none => "n/a"
         | some x =>
@@ -136,22 +206,71 @@ def ops : List (String × Op) := [
           else verdictC (okChunkProtein h.letters x h.win a.toOption)
                  (internalOr a (chunkCodonsClass x h.win a.toOption.isSome)))),
   ("kwcodons", do
-      let h ← pHead; let lo ← pNat; let hi ← pNat; pArrow; let a ← pAns3 pLocs
-      pure (withScope h fun _ =>
+      let h ← pHead; let lo ← pNat; let hi ← pNat; let m ← pMods; pArrow; let a ← pAns3 pLocs
+      pure (withScope h m fun _ =>
         match h.desc.coding with
         | none => "n/a"
         | some x =>
           if hi ≤ lo ∨ hi > h.letters.length then "n/a"     -- empty window: C05 (F-C05d); past the chromosome: refused
           else verdictC (okChunkWindowCodons x h.win lo hi a.toOption)
                  (internalOr a (chunkWindowClass x h.win lo hi a.toOption.isSome)))),
+  ("cwcodons", do
+      let h ← pHead; let lo ← pNat; let hi ← pNat; let m ← pMods; pArrow; let a ← pAns3 pLocs
+      pure (withScope h m fun _ =>
+        match h.desc.coding with
+        | none => "n/a"
+        | some x =>
+          if hi ≤ lo ∨ hi > h.letters.length then "n/a"     -- as for kwcodons
+          else
+            let w : Spec.Win := ⟨some (lo : Int), some (hi : Int), false⟩
+            verdictC (okCodons (x.toIn none) (some w) a.toOption)
+              (internalOr a (codonsClass (x.toIn none) (some w) a.toOption)))),
+  ("same", do
+      let h ← pHead; let m ← pMods; pArrow; let a ← pAns3 pSame
+      pure (withScope h m fun _ =>
+        match m.via with
+        | none => "n/a"
+        | some _ => verdictC (okAltCtor h.desc h.win a.toOption) (internalOr a "unclassified"))),
+  ("order", do
+      let h ← pHead; let _lo ← pNat; let _hi ← pNat; let m ← pMods; pArrow; let a ← pAns3 (pRest tok)
+      pure (withScope h m fun _ =>
+        match a with
+        | .ok toks =>
+          let (ck, kc) := splitBar toks
+          if okOrder ck kc then "pass" else "fail order-dependent " ++ firstDifference ck kc "?"
+        | .err => "n/a"                        -- the construction itself was refused: nothing to ask twice
+        | .internal => "fail internal-error")),
   ("kframes", do
-      let h ← pHead; pArrow; let a ← pAns3 (pRest pNat)
-      pure (withScope h fun _ =>
+      let h ← pHead; let m ← pMods; pArrow; let a ← pAns3 (pRest pNat)
+      pure (withScope h m fun _ =>
         match h.desc.coding with
         | none => "n/a"
         | some x =>
           if !oneFrame x then "n/a"       -- programmed frameshifts are documented to be lost
           else verdictC (okChunkFrames x h.win a.toOption) (internalOr a (chunkFramesClass x h.win))))
 ]
+
+/-- parallel main loop (`lake env lean --run` interprets: one task per slice of the input) -/
+def parMain (spec : Bool) (table : List (String × Op)) : IO Unit := do
+  let stdin ← IO.getStdin
+  let stdout ← IO.getStdout
+  let mut lines : Array String := #[]
+  repeat
+    let line ← stdin.getLine
+    if line.isEmpty then break
+    lines := lines.push line
+  let n := lines.size
+  let nchunks := 48
+  let size := (n + nchunks - 1) / nchunks
+  let answer := fun (line : String) =>
+    let r := runOp table (String.ofList (line.toList.filter (fun c => c != '\n' && c != '\r')))
+    if spec && r.startsWith "bad-op" then "n/a" else r
+  let tasks := (List.range nchunks).map fun c =>
+    Task.spawn fun _ =>
+      let sub := lines.extract (c * size) (min n ((c + 1) * size))
+      "\n".intercalate (sub.map answer).toList
+  for t in tasks do
+    let s := t.get
+    if !s.isEmpty then stdout.putStrLn s
 
 end BioCantor.Driver.SpecChunk
